@@ -158,6 +158,20 @@ impl<T, N: ArrayLength> FromIterator<T> for Box<GenericArray<T, N>> {
 use crate::functional::{FunctionalSequence, MappedGenericSequence};
 use crate::GenericSequence;
 
+/// Owns a raw heap block until it is handed over to a `Box`
+struct DeallocOnDrop {
+    ptr: *mut u8,
+    layout: core::alloc::Layout,
+}
+
+impl Drop for DeallocOnDrop {
+    fn drop(&mut self) {
+        if self.layout.size() != 0 {
+            unsafe { alloc::alloc::dealloc(self.ptr, self.layout) }
+        }
+    }
+}
+
 unsafe impl<T, N: ArrayLength> GenericSequence<T> for Box<GenericArray<T, N>> {
     type Length = N;
     type Sequence = Box<GenericArray<T, N>>;
@@ -191,6 +205,13 @@ unsafe impl<T, N: ArrayLength> GenericSequence<T> for Box<GenericArray<T, N>> {
                 ptr.cast()
             };
 
+            // Releases the block again if `f` panics. Declared before the builder,
+            // so the initialized elements are dropped first.
+            let guard = DeallocOnDrop {
+                ptr: ptr.cast(),
+                layout,
+            };
+
             let mut builder = IntrusiveArrayBuilder::new(&mut *ptr);
 
             {
@@ -203,6 +224,7 @@ unsafe impl<T, N: ArrayLength> GenericSequence<T> for Box<GenericArray<T, N>> {
             }
 
             builder.finish();
+            core::mem::forget(guard);
 
             Box::from_raw(ptr.cast()) // IntrusiveArrayBuilder::array_assume_init
         }
